@@ -288,23 +288,58 @@ class Program:
             return d.obj
         return unparse(expr)
 
-    def cls(self, modname, name) -> ClassInfo:
+    def _module_alias(self, m, name):
+        """What a module-level `name = other` / `name = Class.method` binds name to (the value expression), if that is all."""
+        found = None
+        for st in m.tree.body:
+            if isinstance(st, ast.Assign) and len(st.targets) == 1 and isinstance(st.targets[0], ast.Name) and st.targets[0].id == name:
+                found = st.value
+            elif isinstance(st, ast.AnnAssign) and isinstance(st.target, ast.Name) and st.target.id == name and st.value is not None:
+                found = st.value
+        return found
+
+    def cls(self, modname, name, _depth=0) -> ClassInfo:
         m = self.module(modname)
         c = m.classes.get(name)
+        if c is None and _depth < 6:
+            # defined elsewhere in the package and imported (or aliased) under this name
+            if name in m.imports:
+                mod2, attr = m.imports[name]
+                if attr is not None and mod2 in self.modules:
+                    return self.cls(mod2, attr, _depth + 1)
+            v = self._module_alias(m, name)
+            if isinstance(v, ast.Name) and v.id != name:
+                return self.cls(modname, v.id, _depth + 1)
         if c is None:
             raise AnalysisError(f'class {name} not found in {m.relpath}')
         return c
 
-    def func(self, modname, name) -> FuncInfo:
+    def func(self, modname, name, _depth=0) -> FuncInfo:
         m = self.module(modname)
         if '.' in name:
             cn, fn = name.split('.', 1)
             c = self.cls(modname, cn)
             f = c.methods.get(fn)
             if f is None:
+                o, f = self.lookup_method(c, fn)         # inherited (a mixin or private base class carries it)
+            if f is None:
                 raise AnalysisError(f'method {name} not found in {m.relpath}')
             return f
         f = m.functions.get(name)
+        if f is None and _depth < 6:
+            # moved to another module of the package and imported back, or an alias of a function / static method
+            if name in m.imports:
+                mod2, attr = m.imports[name]
+                if attr is not None and mod2 in self.modules:
+                    return self.func(mod2, attr, _depth + 1)
+            v = self._module_alias(m, name)
+            if isinstance(v, ast.Name) and v.id != name:
+                return self.func(modname, v.id, _depth + 1)
+            if isinstance(v, ast.Attribute) and isinstance(v.value, ast.Name):
+                try:
+                    return self.func(modname, f'{v.value.id}.{v.attr}', _depth + 1)
+                except AnalysisError:
+                    pass
         if f is None:
             raise AnalysisError(f'function {name} not found in {m.relpath}')
         return f
